@@ -451,6 +451,13 @@ def globals : List GlobalSite := [
   -- the entry, so a later call sees the module text of ITS time.  Not idempotent under failure: if
   -- exec_module raises, the half-initialised entry stays in sys.modules (C16 risk, exercised by corr `history`)
   ⟨"_import.py", "_jaqal_import_module_relative", "sys_modules_write", "sys.modules[mod_name] = module"⟩,
+  -- bookkeeping of which sys.modules entries the relative importer created itself: only those entries are ever
+  -- removed or shadowed again (a relative name owned by someone else's module is refused), so the outcome of an
+  -- import does not depend on earlier imports; a module that fails while loading is forgotten again
+  ⟨"_import.py", "_jaqal_import_module_relative", "global_object_write", "_relative_modules.add(mod_name)"⟩,
+  ⟨"_import.py", "_forget_relative_module", "sys_modules_write", "sys.modules.pop(mod_name, None)"⟩,
+  ⟨"_import.py", "_forget_relative_module", "sys_modules_delete", "del sys.modules[k]"⟩,
+  ⟨"_import.py", "_forget_relative_module", "global_object_write", "_relative_modules.discard(mod_name)"⟩,
   ⟨"_import.py", "jaqal_import", "sys_modules_delete", "del sys.modules[mod_name]"⟩,
   ⟨"_import.py", "jaqal_import", "sys_modules_delete", "del sys.modules[k]"⟩,
   ⟨"_import.py", "jaqal_import", "process_state_call", "importlib.reload(module)"⟩,
